@@ -220,6 +220,7 @@ import unified_planning.model.walkers.quantifier_simplifier as qs
 
 ProblemT = Ref("Problem")
 StateT = Ref("State")
+ProblemT.fields["environment"] = T.Environment
 
 
 class WalkFailure(Exception):
@@ -315,10 +316,139 @@ _replay_concrete_walk = replay_concrete
 
 def replay_file(data):  # noqa: F811
     c = data["concrete"]
+    if "one_shot" in c:
+        return replay_one_shot(c)
     return replay_evaluator(c) if "which" in c else _replay_concrete_walk(c)
 
 
-UNITS = [Walk(False), Walk(True), EvaluatorReset("evaluate"), EvaluatorReset("qsimplify")]
+# ------------------------------------------------------------------------------------------ walkers whose handlers read per-call state
+from contracts.harness import c14 as H14
+import unified_planning.model.walkers.generic as _walker
+
+
+T.Environment.fields.update({"expression_manager": T.Manager, "type_checker": Ref("TypeChecker14"), "free_vars_oracle": Ref("FreeVarsOracle14")})
+
+
+from unified_planning.exceptions import UPTypeError as _UPTypeError14
+
+
+class OneShot(Unit):
+    """real constructor + any history + real entry method: when walk is entered nothing memoized by an earlier call is left (so no handler
+    result computed with another call's substitution map / objects set / assignments / state can be returned)"""
+    prop = "C14"
+    allowed_raises = (WalkFailure, _UPTypeError14)
+
+    def __init__(self, which):
+        self.which = which
+        self.name = {"eqr": "ExpressionQuantifiersRemover(env); <earlier calls>; remove_quantifiers", "sub": "Substituter(env); <earlier calls>; substitute",
+                     "qs": "QuantifierSimplifier(env, problem); <earlier calls>; qsimplify", "ev": "StateEvaluator(problem); <earlier calls>; evaluate"}[which]
+        self.doc = "after the real constructor and any earlier calls, the entry method enters walk with an empty memoization"
+
+    def target(self):
+        return {"eqr": H14.remove_quantifiers_later, "sub": H14.substitute_later, "qs": H14.qsimplify_later, "ev": H14.evaluate_later}[self.which]
+
+    def configure(self, eng):
+        eng.contracts[_walker.Walker.__init__] = lambda e, st, a, k: iter([(st, None)])       # builds the handler table: not memoization
+        unit = self
+
+        def earlier(e, st, a, k):
+            w = a[0]
+            flag = st.getfield(w, "invalidate_memoization")
+            st.ghost["one_shot"] = flag is True
+            if flag is not True:
+                st.setfield(w, "memoization", st.alloc(e.fresh_of(st, Map(T.FNode, Res), "memoized_by_earlier_calls"), "dict"))
+            # the per-call fields keep what the last earlier call stored in them (possibly the very objects of the later call)
+            for fld, ty in {"eqr": {"_objects_set": Ref("ObjectsSet14")}, "ev": {"_state": StateT}}.get(unit.which, {}).items():
+                st.setfield(w, fld, ty.fresh(fld + "_of_an_earlier_call"))
+            yield st, None
+        eng.contracts[H14.earlier_calls] = earlier
+
+        def walk(e, st, a, k):
+            w = a[0]
+            memo = e.deref(st, st.getfield(w, "memoization"))
+            if isinstance(memo, SMap):
+                kk = T.FNode.fresh("k")
+                empty = z3.ForAll([kk.z], z3.Not(z3.Select(memo.has, kk.z)))
+            elif isinstance(memo, B.PendingEmpty) or (isinstance(memo, CDict) and not memo.items):
+                empty = z3.BoolVal(True)
+            else:
+                empty = z3.BoolVal(False)
+            st.oblige("walk is entered with nothing memoized by earlier calls (their per-call state differs)", empty)
+            st.ghost["walk_entered"] = True
+            s2 = st.fork()
+            yield s2.note("walk:raise"), ExcVal(WalkFailure, (), "walk")
+            r = T.FNode.fresh("r")
+            C = T.OKT.consts
+            if unit.which == "ev":       # the evaluator's handlers return constants (C01 / C11 fold obligations)
+                st.assume(z3.Or([T.node_type(r.z) == C[k_] for k_ in (OK.BOOL_CONSTANT, OK.INT_CONSTANT, OK.REAL_CONSTANT, OK.OBJECT_EXP)]))
+            yield st.note("walk:ok"), r
+        eng.contracts[dag.DagWalker.walk] = walk
+        if self.which == "sub":
+            T.Manager.methods["auto_promote"] = lambda e, st, sv, a, k: iter([(st, st.alloc(CList(list(a)), "list"))])
+            eng.loops[("unified_planning.model.walkers.substituter.Substituter.substitute", 0)] = LoopSpec(
+                lambda L: [("-", z3.BoolVal(True))], modifies=["k", "v", "new_k", "new_v", "new_substitutions"],
+                types={"new_substitutions": Map(T.FNode, T.FNode, ordered=True)})
+
+    def setup(self, eng, st):
+        env, e = T.Environment.fresh("environment"), T.FNode.fresh("expression")
+        m = lambda nm: st.alloc(eng.fresh_of(st, Map(T.FNode, T.FNode, ordered=True), nm), "dict")   # noqa: E731
+        if self.which == "eqr":
+            return [env, e, Ref("ObjectsSet14").fresh("objects_set")], {}, {}
+        if self.which == "sub":
+            return [env, e, m("substitutions")], {}, {}
+        if self.which == "qs":
+            return [env, ProblemT.fresh("problem"), e, m("assignments"), m("variable_assignments")], {}, {}
+        return [ProblemT.fresh("problem"), e, StateT.fresh("state")], {}, {}
+
+    def post(self, eng, ctx, st, out):
+        if st.ghost.get("walk_entered"):
+            st.oblige("(the obligation is raised where walk is entered)", z3.BoolVal(True))
+        elif out[0] == "return":
+            st.oblige("a call that returns without a walk returns without consulting the memoization", z3.BoolVal(True))
+
+    def replay(self, ctx, model, label):
+        return replay_one_shot({"one_shot": self.which})
+
+
+def replay_one_shot(c):
+    """two calls on one walker whose per-call state differs, the second compared with the same call on a fresh walker"""
+    from unified_planning.shortcuts import Problem, Fluent, BoolType, UserType, Object, Variable, Exists, TRUE, FALSE
+    from unified_planning.model.walkers import ExpressionQuantifiersRemover, Substituter, QuantifierSimplifier, StateEvaluator
+    from unified_planning.model import UPState
+    which = c["one_shot"]
+    T_ = UserType("T14")
+    p = Problem("p14")
+    r, q = Fluent("r", BoolType(), x=T_), Fluent("q", BoolType())
+    p.add_fluent(r, default_initial_value=False)
+    p.add_fluent(q, default_initial_value=False)
+    o1, o2 = Object("o1", T_), Object("o2", T_)
+    p.add_object(o1)
+    v = Variable("v", T_)
+    ex = Exists(r(v), v)
+    env = p.environment
+    if which == "eqr":
+        w = ExpressionQuantifiersRemover(env)
+        w.remove_quantifiers(ex, p)
+        p.add_object(o2)
+        got, want = w.remove_quantifiers(ex, p), ExpressionQuantifiersRemover(env).remove_quantifiers(ex, p)
+    elif which == "sub":
+        w = Substituter(env)
+        w.substitute(q().And(r(o1)), {q(): TRUE()})
+        got, want = w.substitute(q().And(r(o1)), {q(): FALSE()}), Substituter(env).substitute(q().And(r(o1)), {q(): FALSE()})
+    elif which == "qs":
+        w = QuantifierSimplifier(env, p)
+        w.qsimplify(q().And(r(o1)), {q(): TRUE(), r(o1): TRUE()}, {})
+        a2 = {q(): FALSE(), r(o1): TRUE()}
+        got, want = w.qsimplify(q().And(r(o1)), a2, {}), QuantifierSimplifier(env, p).qsimplify(q().And(r(o1)), a2, {})
+    else:
+        w = StateEvaluator(p)
+        s1, s2 = UPState({q(): TRUE(), r(o1): TRUE()}, p), UPState({q(): FALSE(), r(o1): TRUE()}, p)
+        w.evaluate(q().And(r(o1)), s1)
+        got, want = w.evaluate(q().And(r(o1)), s2), StateEvaluator(p).evaluate(q().And(r(o1)), s2)
+    return {"reproduced": got is not want, "concrete": c, "observed": f"second call on the used walker: {got}; same call on a fresh walker: {want}"}
+
+
+UNITS = [Walk(False), Walk(True), EvaluatorReset("evaluate"), EvaluatorReset("qsimplify")] + [OneShot(w) for w in ("eqr", "sub", "qs", "ev")]
 LEVEL = "proof"
 EXPLANATION = __doc__
 TRUSTED = T.TRUSTED + ["handlers do not touch the walker's stack/memoization and return the fold value when given the "
